@@ -233,6 +233,11 @@ def ref_call(name, args):
         return None
     if name == 'replace':
         if len(a) == 4:
+            # flags: the regex dialect is not modelled, except flag q (XPath fn:replace: "all characters in the regular expression are treated as
+            # representing themselves"), alone or with i (case-insensitive): a literal replacement
+            if all(isinstance(x, str) for x in a) and a[3] in ('q', 'qi', 'iq') and '$' not in a[2] and '\\' not in a[2] and a[1] != '':
+                import re as _re
+                return _re.sub(_re.escape(a[1]), lambda m: a[2], a[0], flags=_re.I if 'i' in a[3] else 0)
             raise KeyError
         if len(a) == 3 and all(isinstance(x, str) for x in a):
             return a[0].replace(a[1], a[2])
@@ -675,6 +680,12 @@ def gen_cases(ctx):
         add(f, num('1'), st('1'))
     add('string length', VNULL)
     add('string length', num('12'))
+    # flag q: the pattern is taken literally - letters and digits (which a backslash would turn into \b, \d, \w, \s ...: fixed in /repo ca8f302) and
+    # every regex metacharacter; with i on top the match ignores case and stays literal (seeded change C08_j: q was dropped next to i)
+    for s0, pat in (('abc', 'b'), ('a.b.c', '.'), ('1+1=2', '+'), ('a1b1', '1'), ('d w s', 'w'), ('x(y)z', '(y)'), ('a*b', '*'), ('AbCb', 'b'), ('a[1]', '[1]'), ('a^b$c', '^'), ('a|b', '|'), ('q?q', '?'), ('aBc', 'b'), ('{n}', '{n}')):
+        for fl in ('q', 'qi', 'iq'):
+            add('replace', st(s0), st(pat), st('-'), st(fl))
+            add('replace', st(s0), st(pat.upper()), st('<>'), st(fl))
     add('replace', st('  abc '), st('b'), st('x'))
     add('replace', st('abc'), st('c'), st(' '))
     add('replace', st('a b c d '), st('x'), st('y'))
